@@ -10,7 +10,7 @@ ASSUME \A i \in 1 .. NT : TLCSet(i, 1)
 Ev == Traces[t][l]
 TInit == RInit /\ t \in 1 .. NT /\ l = 1
 
-LevelsMatch(e) == \A m \in Mods, c \in Conns : level'[<<m, c>>] = e.level[m][c]
+LevelsMatch(e) == ~e.haslevel \/ \A m \in Mods, c \in Conns : level'[<<m, c>>] = e.level[m][c]
 
 TStep ==
   /\ l <= Len(Traces[t])
